@@ -10,13 +10,17 @@
    the trace as well.  The whole file must be consumed (POSTCONDITION Accepted). *)
 EXTENDS IncExec, Json
 
-CONSTANT TraceFile
+CONSTANTS TraceFile,
+          Opaque  \* TRUE for traces of foreign queries (the package's own tests): the value and fatal error
+                  \* a query returns are taken from the trace instead of being computed, and only the
+                  \* properties that do not need the oracle are checked
 VARIABLES l,      \* index of the next event
           tmap,   \* Task pointer id -> activation id
-          omap    \* result pointer id -> activation id of its leader
+          omap,   \* result pointer id -> activation id of its leader
+          xres    \* Opaque only: activation id -> what its Execute returned
 
 TraceLog == ndJsonDeserialize(TraceFile)
-tvars == <<vars, l, tmap, omap>>
+tvars == <<vars, l, tmap, omap, xres>>
 E == TraceLog[l]
 
 ToSet(s) == {s[i] : i \in 1..Len(s)}
@@ -29,7 +33,7 @@ CfgOf(e) == [bat |-> [k \in Nodes |-> IF Has(e.cfg.bat, k) THEN e.cfg.bat[k] ELS
              plan |-> [i \in 1..Len(e.cfg.plan) |-> OpOf(e.cfg.plan[i])]]
 
 TInit == /\ l = 2 /\ TraceLog[1].ev = "case" /\ InitWith(CfgOf(TraceLog[1]))
-         /\ tmap = <<>> /\ omap = <<>>
+         /\ tmap = <<>> /\ omap = <<>> /\ xres = <<>>
 
 Consume == l' = l + 1
 Is(name) == l <= Len(TraceLog) /\ E.ev = name
@@ -40,7 +44,7 @@ Cand(t, k, pcs) == {i \in DOMAIN acts : acts[i].par = tmap[t] /\ acts[i].key = k
 StOK(k, st, o) == CASE st = "nil" -> res[k] = "nil"
                     [] st = "done" -> res[k] = "done"
                     [] OTHER -> res[k] = "pending" /\ o \in DOMAIN omap /\ omap[o] = out[k]
-FClass(f) == IF f.t = "cycle" THEN "cycle" ELSE IF f.t = "cancel" THEN "cancel" ELSE "none"
+FClass(f) == f.t
 SimpleOf(cp) == IF Len(cp) = 0 THEN <<>> ELSE IF Len(cp) = 3 /\ cp[1] = cp[2] THEN <<cp[1]>> ELSE SubSeq(cp, 1, Len(cp) - 1)
 PathOf(e) == IF Has(e, "path") THEN e.path ELSE <<>>
 
@@ -56,9 +60,11 @@ TraceReset ==
      /\ ver' = [k \in Nodes |-> 0] /\ acts' = <<>> /\ runs' = <<>>
      /\ ev' = [pc |-> "idle", keys |-> {}, coll |-> {}, conc |-> FALSE]
      /\ execCnt' = [k \in Nodes |-> 0] /\ execIn' = [k \in Nodes |-> NoId] /\ flags' = <<>>
-  /\ tmap' = <<>> /\ omap' = <<>> /\ Consume
+  /\ tmap' = <<>> /\ omap' = <<>> /\ xres' = <<>> /\ Consume
 
-Same == UNCHANGED <<tmap, omap>>
+Same == UNCHANGED <<tmap, omap, xres>>
+FOf(e) == IF e.f = "cycle" THEN CycleF(e.path) ELSE IF e.f = "none" THEN NoF ELSE [t |-> e.f, p |-> <<>>]
+TEnd(i) == IF Opaque /\ i \in DOMAIN xres THEN EndWith(i, TRUE, xres[i].v, xres[i].f) ELSE End(i)
 Skip == UNCHANGED vars /\ Same /\ Consume
 
 EvOpBegin == Is("op.begin") /\ OpBegin /\ step' = E.step /\ Same /\ Consume
@@ -66,7 +72,7 @@ EvOpBegin == Is("op.begin") /\ OpBegin /\ step' = E.step /\ Same /\ Consume
 EvRunEnter ==
   /\ Is("run.enter")
   /\ \E i \in DOMAIN acts : /\ RunEnter(i, E.run) /\ tmap' = Bind(tmap, E.t, i)
-  /\ UNCHANGED omap /\ Consume
+  /\ UNCHANGED <<omap, xres>> /\ Consume
 
 EvAcquire ==
   /\ Is("acquire") /\ Known(E.t)
@@ -81,7 +87,7 @@ EvRelease ==
   /\ Is("release") /\ Known(E.t)
   /\ LET p == tmap[E.t] IN
      \/ acts[p].pc = "post" /\ acts[p].nw /\ acts[p].hold = E.held /\ Post(p, FALSE)
-     \/ acts[p].pc = "end" /\ acts[p].async /\ acts[p].hold = E.held /\ End(p)
+     \/ acts[p].pc = "end" /\ acts[p].async /\ acts[p].hold = E.held /\ TEnd(p)
      \/ acts[p].pc = "rexit" /\ acts[p].hold = E.held /\ RunExit1(p)
      \/ \E c \in DOMAIN acts : acts[c].par = p /\ ~acts[c].async /\ acts[p].hold = E.held /\ WaitRelease(c)
   /\ Same /\ Consume
@@ -90,7 +96,7 @@ EvTransfer ==
   /\ Is("transfer") /\ Known(E.from)
   /\ LET f == tmap[E.from] IN
      IF Known(E.t) /\ acts[f].par = tmap[E.t] /\ acts[f].pc = "end"
-     THEN /\ ~acts[f].async /\ acts[f].hold = E.fromheld /\ End(f) /\ Same /\ Consume    \* transfer back
+     THEN /\ ~acts[f].async /\ acts[f].hold = E.fromheld /\ TEnd(f) /\ Same /\ Consume    \* transfer back
      ELSE Skip                                                                          \* steal: part of Cas
 
 EvStored ==
@@ -116,7 +122,7 @@ EvCasWin ==
   /\ \E i \in Cand(E.t, E.k, {"cas"}) :
        /\ acts[i].async = E.flag /\ Cas(i)
        /\ tmap' = Bind(tmap, E.callee, i) /\ omap' = Bind(omap, E.o, i)
-  /\ Consume
+  /\ UNCHANGED xres /\ Consume
 
 EvCasLose ==
   /\ Is("cas.lose") /\ Bound(E.t) /\ res[E.k] # "nil"
@@ -135,11 +141,13 @@ EvExecRet ==
   /\ Is("exec.ret") /\ Known(E.t)
   /\ LET a == acts[tmap[E.t]] IN
      /\ a.pc = "end" /\ a.key = E.k
-     /\ IF a.cerr THEN E.f = "cancel"
-        ELSE /\ E.f = FClass(a.af)
-             /\ (a.af.t = "none" /\ E.v >= 0) => E.v = Final(a.acc, ver[a.key])
-             /\ a.af.t = "cycle" => PathOf(E) = a.af.p
-  /\ Skip
+     /\ IF Opaque THEN xres' = Bind(xres, tmap[E.t], [v |-> E.v, f |-> FOf(E)])
+        ELSE /\ IF a.cerr THEN E.f = "cancel"
+                ELSE /\ E.f = FClass(a.af)
+                     /\ (a.af.t = "none" /\ E.v >= 0) => E.v = Final(a.acc, ver[a.key])
+                     /\ a.af.t = "cycle" => PathOf(E) = a.af.p
+             /\ UNCHANGED xres
+  /\ UNCHANGED <<vars, tmap, omap>> /\ Consume
 
 EvClose ==
   /\ Is("close") /\ Known(E.t)
@@ -191,7 +199,7 @@ EvIgnored == (Is("exec.begin") \/ Is("evict.ret")) /\ Skip
 Silent ==
   /\ l <= Len(TraceLog)
   /\ \E i \in DOMAIN acts : \E c \in BOOLEAN : (acts[i].pc = "post" /\ ~acts[i].nw /\ Post(i, c)) \/ ReadCause(i, c)
-  /\ UNCHANGED <<l, tmap, omap>>
+  /\ UNCHANGED <<l, tmap, omap, xres>>
 
 TNext ==
   \/ TraceReset \/ EvOpBegin \/ EvRunEnter \/ EvAcquire \/ EvRelease \/ EvTransfer \/ EvStored
@@ -213,7 +221,8 @@ ASSUME TLCSet(1, 0)
    execution that breaks a property has no matching behaviour left and is rejected at that event. *)
 Props == /\ TypeOK /\ PermitsRestored /\ NoStuckPending /\ NoAbort /\ CycleError /\ RunResultOK /\ CacheExact
          /\ PanicNotCached /\ EvictExact /\ AtMostOnce /\ ExecExact /\ ChangedFlag
-TraceConstraint == Props /\ HWM
+PropsOpaque == /\ TypeOK /\ PermitsRestored /\ NoStuckPending /\ NoAbort /\ CycleError /\ AtMostOnce /\ ChangedFlag
+TraceConstraint == (IF Opaque THEN PropsOpaque ELSE Props) /\ HWM
 Accepted == /\ PrintT(<<"HWM", TLCGet(1), Len(TraceLog)>>)
             /\ TLCGet(1) = Len(TraceLog)
 =============================================================================
